@@ -171,28 +171,33 @@ def State.isFinishing (st : State) : Bool :=
   | .finishing _ => true
   | _ => false
 
+/-- `transmit_interval`: the interval `[a, b)` trimmed to the packet capacity (at most `u16::MAX`) -/
+def intervalEnd (cap a b : Nat) : Nat := if min cap 65535 < b - a then a + min cap 65535 else b
+
+/-- `transmit_interval`: … and to the flow-control window -/
+def windowEnd (window a b1 : Nat) : Nat := if window - a < b1 - a then window else b1
+
+/-- `viewer.next_view(interval, has_fin)` + `writer.write_chunk` + `in_flight.insert` + the FIN piggyback
+    for the range `[a, b2)` in packet `pn` -/
+def writeChunk (s : Sender F) (a b2 pn : Nat) : Sender F × Frame :=
+  let isFin := s.state.isFinishing && decide (b2 = s.totalLen)
+  ({ s with transmissions := s.transmissions ++ [(pn, a, b2)],
+            state := if isFin then s.state.finOnTransmit pn else s.state,
+            viewPanic := s.viewPanic || !decide (s.head ≤ a ∧ b2 ≤ s.totalLen ∧ a < b2) },
+   { off := a, data := (s.bytes.drop (a - s.head)).take (b2 - a), fin := isFin })
+
 /-- `Transmissions::transmit_interval` for `[a, b)` with `cap` payload bytes left in packet `pn`.
     Returns the sender (the flow controller is consulted even when nothing is written) and, when
     a frame was written, the frame. `none` = `Err(CouldNotAcquireEnoughSpace)`. -/
 def transmitInterval (ops : FlowOps F) (s : Sender F) (a b pn cap : Nat) : Sender F × Option Frame :=
-  let capacity := min cap 65535
-  if capacity = 0 ∨ (b - a ≥ 32 ∧ capacity < 32) then (s, none)
+  if min cap 65535 = 0 ∨ (b - a ≥ 32 ∧ min cap 65535 < 32) then (s, none)
+  else if (ops.acquire s.fc (intervalEnd cap a b)).2 ≤ a then
+    ({ s with fc := (ops.acquire s.fc (intervalEnd cap a b)).1 }, none)
   else
-    let b1 := if capacity < b - a then a + capacity else b
-    let r := ops.acquire s.fc b1
-    let s1 := { s with fc := r.1 }
-    let window := r.2
-    if window ≤ a then (s1, none)
-    else
-      let b2 := if window - a < b1 - a then window else b1
-      -- `viewer.next_view(interval, has_fin)`
-      let inRange := decide (s.head ≤ a ∧ b2 ≤ s.totalLen ∧ a < b2)
-      let data := (s.bytes.drop (a - s.head)).take (b2 - a)
-      let isFin := s.state.isFinishing && decide (b2 = s.totalLen)
-      ({ s1 with transmissions := s1.transmissions ++ [(pn, a, b2)],
-                 state := if isFin then s1.state.finOnTransmit pn else s1.state,
-                 viewPanic := s1.viewPanic || !inRange },
-       some { off := a, data := data, fin := isFin })
+    ((writeChunk { s with fc := (ops.acquire s.fc (intervalEnd cap a b)).1 } a
+        (windowEnd (ops.acquire s.fc (intervalEnd cap a b)).2 a (intervalEnd cap a b)) pn).1,
+     some (writeChunk { s with fc := (ops.acquire s.fc (intervalEnd cap a b)).1 } a
+        (windowEnd (ops.acquire s.fc (intervalEnd cap a b)).2 a (intervalEnd cap a b)) pn).2)
 
 /-- `Transmissions::transmit_set` over the lost intervals `l` (popped from the front); returns
     the sender, the lost intervals that remain, the frames, the capacity left and whether the
@@ -215,35 +220,48 @@ def State.canTransmitFin (st : State) (canRetransmit canTransmit isBlocked : Boo
   | .finishing .pending => !isBlocked && canTransmit
   | _ => false
 
+/-- `on_transmit_impl`, step 1: `transmit_set(lost)` when the constraint allows retransmissions.
+    Returns the sender, the frames, the capacity left, and whether the step ended with an error. -/
+def phaseLost (ops : FlowOps F) (s : Sender F) (pn cap : Nat) (canRetransmit : Bool) :
+    Sender F × List Frame × Nat × Bool :=
+  if canRetransmit then
+    ({ (transmitLost ops pn s.lost s cap).1 with lost := (transmitLost ops pn s.lost s cap).2.1 },
+     (transmitLost ops pn s.lost s cap).2.2.1, (transmitLost ops pn s.lost s cap).2.2.2.1,
+     (transmitLost ops pn s.lost s cap).2.2.2.2)
+  else (s, [], cap, false)
+
+/-- step 2: new data `[transmission_offset, total_len)` unless blocked -/
+def phaseNew (ops : FlowOps F) (s : Sender F) (pn cap : Nat) (isBlocked canTransmit : Bool) :
+    Sender F × List Frame × Nat × Bool :=
+  if !isBlocked ∧ canTransmit ∧ s.transmissionOffset < s.totalLen then
+    match transmitInterval ops s s.transmissionOffset s.totalLen pn cap with
+    | (s2, none) => (s2, [], cap, true)
+    | (s2, some fr) => ({ s2 with transmissionOffset := fr.stop }, [fr], cap - fr.data.length, false)
+  else (s, [], cap, false)
+
+/-- step 3: `transmit_fin` (an empty STREAM frame with the FIN bit at `total_len`) -/
+def phaseFin (ops : FlowOps F) (s : Sender F) (pn cap : Nat) (canRetransmit canTransmit isBlocked : Bool) :
+    Sender F × List Frame :=
+  if s.state.canTransmitFin canRetransmit canTransmit isBlocked ∧ !ops.isBlocked s.fc ∧ cap > 0 then
+    ({ s with state := s.state.finOnTransmit pn }, [{ off := s.totalLen, data := [], fin := true }])
+  else (s, [])
+
 /-- `on_transmit_impl` for packet `pn` with `cap` payload bytes and the transmission constraint
-    (`can_retransmit`, `can_transmit`): lost data first, then new data, then the FIN -/
+    (`can_retransmit`, `can_transmit`): lost data first, then new data, then the FIN; an error of
+    a step (`?`) ends the call. `is_blocked` is sampled once, after the lost data. -/
 def onTransmit (ops : FlowOps F) (s : Sender F) (pn cap : Nat) (canRetransmit canTransmit : Bool) :
     Sender F × List Frame :=
   if s.state = .cancelled ∨ s.state = .finished then (s, [])
   else
-    -- 1. `transmit_set(lost)`
-    let r1 := if canRetransmit then transmitLost ops pn s.lost s cap else (s, s.lost, [], cap, false)
-    let s1 := { r1.1 with lost := r1.2.1 }
-    if r1.2.2.2.2 then (s1, r1.2.2.1)
+    let r1 := phaseLost ops s pn cap canRetransmit
+    if r1.2.2.2 then (r1.1, r1.2.1)
     else
-      let cap1 := r1.2.2.2.1
-      let isBlocked := ops.isBlocked s1.fc
-      let total := s1.totalLen
-      -- 2. new data `[transmission_offset, total_len)`
-      let r2 : Sender F × List Frame × Nat × Bool :=
-        if !isBlocked ∧ canTransmit ∧ s1.transmissionOffset < total then
-          match transmitInterval ops s1 s1.transmissionOffset total pn cap1 with
-          | (s2, none) => (s2, [], cap1, true)
-          | (s2, some fr) => ({ s2 with transmissionOffset := fr.stop }, [fr], cap1 - fr.data.length, false)
-        else (s1, [], cap1, false)
-      if r2.2.2.2 then (r2.1, r1.2.2.1 ++ r2.2.1)
+      let isBlocked := ops.isBlocked r1.1.fc
+      let r2 := phaseNew ops r1.1 pn r1.2.2.1 isBlocked canTransmit
+      if r2.2.2.2 then (r2.1, r1.2.1 ++ r2.2.1)
       else
-        let s2 := r2.1
-        -- 3. `transmit_fin`
-        if s2.state.canTransmitFin canRetransmit canTransmit isBlocked ∧ !ops.isBlocked s2.fc ∧ r2.2.2.1 > 0 then
-          ({ s2 with state := s2.state.finOnTransmit pn },
-           r1.2.2.1 ++ r2.2.1 ++ [{ off := s2.totalLen, data := [], fin := true }])
-        else (s2, r1.2.2.1 ++ r2.2.1)
+        let r3 := phaseFin ops r2.1 pn r2.2.2.1 canRetransmit canTransmit isBlocked
+        (r3.1, r1.2.1 ++ r2.2.1 ++ r3.2)
 
 /-- ranges of the transmissions of packets `lo..=hi`, and the transmissions that remain -/
 def takeRange (lo hi : Nat) (ts : List (Nat × Nat × Nat)) : List (Nat × Nat) × List (Nat × Nat × Nat) :=
@@ -260,35 +278,56 @@ def FinState.onLoss (f : FinState) (lo hi : Nat) : FinState × Bool :=
   | .inFlight pn => if lo ≤ pn ∧ pn ≤ hi then (.lost, true) else (f, false)
   | f => (f, false)
 
+def State.onAck (st : State) (lo hi : Nat) : State :=
+  match st with
+  | .finishing f => .finishing (f.onAck lo hi)
+  | st => st
+
+/-- `on_packet_ack`, part 1: the ranges of the acknowledged packets leave `pending` (and `lost`,
+    via `lost.intersection(pending)`), the FIN state is updated; returns `any_acked` -/
+def ackRemove (s : Sender F) (lo hi : Nat) : Sender F × Bool :=
+  if (takeRange lo hi s.transmissions).1 = [] then
+    ({ s with transmissions := (takeRange lo hi s.transmissions).2, state := s.state.onAck lo hi }, false)
+  else
+    ({ s with transmissions := (takeRange lo hi s.transmissions).2,
+              pending := (takeRange lo hi s.transmissions).1.foldl (fun p iv => Iv.remove p iv.1 iv.2) s.pending,
+              lost := Iv.inter s.lost
+                ((takeRange lo hi s.transmissions).1.foldl (fun p iv => Iv.remove p iv.1 iv.2) s.pending),
+              state := s.state.onAck lo hi }, true)
+
+/-- part 2 (only `if any_acked`): release the buffer up to the first pending byte -/
+def ackRelease (s : Sender F) : Sender F :=
+  match Iv.minValue s.pending with
+  | some first => s.release first
+  | none => { s.releaseAll with transmissions := [] }
+
+/-- part 3: FIN acknowledged and nothing outstanding ⇒ `Finished` -/
+def ackFinish (ops : FlowOps F) (s : Sender F) : Sender F :=
+  if s.state = .finishing .acknowledged ∧ s.transmissions = [] ∧ s.pending = [] ∧ s.lost = [] then
+    { s.releaseAll with state := .finished, fc := ops.finish s.fc }
+  else s
+
 /-- `on_packet_ack` for the packet number range `lo..=hi` -/
 def onPacketAck (ops : FlowOps F) (s : Sender F) (lo hi : Nat) : Sender F :=
-  let r := takeRange lo hi s.transmissions
-  let pending := r.1.foldl (fun p iv => Iv.remove p iv.1 iv.2) s.pending
-  let st : State := match s.state with
-    | .finishing f => .finishing (f.onAck lo hi)
-    | st => st
-  let s1 := { s with transmissions := r.2, pending := pending, state := st }
-  let s2 :=
-    if r.1 ≠ [] then
-      let s' := { s1 with lost := Iv.inter s1.lost pending }
-      match Iv.minValue pending with
-      | some first => s'.release first
-      | none => { s'.releaseAll with transmissions := [] }
-    else s1
-  if s2.state = .finishing .acknowledged ∧ s2.transmissions = [] ∧ s2.pending = [] ∧ s2.lost = [] then
-    { s2.releaseAll with state := .finished, fc := ops.finish s2.fc }
-  else s2
+  ackFinish ops (if (ackRemove s lo hi).2 then ackRelease (ackRemove s lo hi).1 else (ackRemove s lo hi).1)
+
+def State.onLoss (st : State) (lo hi : Nat) : State × Bool :=
+  match st with
+  | .finishing f => (.finishing (f.onLoss lo hi).1, (f.onLoss lo hi).2)
+  | st => (st, false)
 
 /-- `on_packet_loss` for the packet number range `lo..=hi` -/
 def onPacketLoss (ops : FlowOps F) (s : Sender F) (lo hi : Nat) : Sender F :=
-  let r := takeRange lo hi s.transmissions
-  let lost := r.1.foldl (fun l iv => Iv.insert l iv.1 iv.2) s.lost
-  let fl : State × Bool := match s.state with
-    | .finishing f => (.finishing (f.onLoss lo hi).1, (f.onLoss lo hi).2)
-    | st => (st, false)
-  if r.1 ≠ [] ∨ fl.2 then
-    { s with transmissions := r.2, lost := Iv.inter lost s.pending, state := fl.1, fc := ops.clearBlocked s.fc }
-  else { s with transmissions := r.2, lost := lost, state := fl.1 }
+  if (takeRange lo hi s.transmissions).1 = [] then
+    if (s.state.onLoss lo hi).2 then
+      -- only the FIN was lost: `any_lost`, so `clear_blocked` and `lost ∩= pending`
+      { s with transmissions := (takeRange lo hi s.transmissions).2, lost := Iv.inter s.lost s.pending,
+               state := (s.state.onLoss lo hi).1, fc := ops.clearBlocked s.fc }
+    else { s with transmissions := (takeRange lo hi s.transmissions).2, state := (s.state.onLoss lo hi).1 }
+  else
+    { s with transmissions := (takeRange lo hi s.transmissions).2,
+             lost := Iv.inter ((takeRange lo hi s.transmissions).1.foldl (fun l iv => Iv.insert l iv.1 iv.2) s.lost) s.pending,
+             state := (s.state.onLoss lo hi).1, fc := ops.clearBlocked s.fc }
 
 /-! ## the send stream: data sender + reset (`SendStream::init_reset`) -/
 
